@@ -308,6 +308,103 @@ static void archive_target(Src &s, Case &c)
     const Entry &e = FAMILY[s.below(NFAMILY)];
     e.run(s, c, e.name);
 }
+// long double: archive.h has its own dump/load overloads for it (the fixed-width native image, 16 bytes here of which the
+// x87 format uses 10; the other 6 are padding whose content is not specified, so the bytes are not compared with a
+// reference — sizes, values and what follows are).
+static void archive_longdouble_target(Src &s, Case &c)
+{
+    auto gen_ld = [&]() -> long double {
+        switch (s.below(6))
+        {
+        case 0:
+            return 0.0L;
+        case 1:
+            return -0.0L;
+        case 2:
+            return (long double)std::bit_cast<double>(s.u64() & 0x7fefffffffffffffull) * (s.coin() ? 1 : -1);
+        case 3:
+            return std::numeric_limits<long double>::max();
+        case 4:
+            return std::numeric_limits<long double>::denorm_min();
+        default:
+            return (long double)s.range(-1000000, 1000000) / 1024.0L + 0x1p-70L;
+        }
+    };
+    auto same = [](long double a, long double b) { return memcmp(&a, &b, 10) == 0; };
+    int form = (int)s.below(4);
+    size_t n = (size_t)s.range(1, 5);
+    std::vector<long double> xs;
+    for (size_t i = 0; i < n; i++)
+        xs.push_back(gen_ld());
+    int32_t tail = s.biased_int<int32_t>();
+    c.nontrivial = true;
+    c.log("long double form %d, %zu value(s), first %.25Lg, tail %d", form, n, xs[0], tail);
+    if (form == 0)
+    {
+        // scalars one after the other, then an int32
+        c.label("ld_sequence");
+        std::string e;
+        for (long double x : xs)
+            e += igris::serialize(x);
+        e += igris::serialize(tail);
+        VP_CHECK(e.size() == n * sizeof(long double) + 4, "archive_longdouble_size", "%zu long double + an int32 encode to %zu bytes, want %zu", n, e.size(),
+                 n * sizeof(long double) + 4);
+        Exact blk(e.data(), e.size());
+        igris::archive::binary_buffer_reader rd(blk.c(), blk.n);
+        for (size_t i = 0; i < n; i++)
+        {
+            long double y = 1;
+            igris::deserialize(rd, y);
+            VP_CHECK(same(y, xs[i]), "archive_longdouble_value", "value %zu decodes to %.25Lg, want %.25Lg", i, y, xs[i]);
+        }
+        int32_t t2 = ~tail;
+        igris::deserialize(rd, t2);
+        VP_CHECK(t2 == tail && (size_t)(rd.ptr - blk.c()) == e.size(), "archive_longdouble_consumed", "int32 after the long doubles decodes to %d (want %d), %td of %zu bytes consumed",
+                 t2, tail, rd.ptr - blk.c(), e.size());
+    }
+    else if (form == 1)
+    {
+        c.label("ld_pair");
+        std::pair<long double, int32_t> p{xs[0], tail};
+        std::string e = igris::serialize(p);
+        VP_CHECK(e.size() == sizeof(long double) + 4, "archive_longdouble_size", "pair<long double,int32> encodes to %zu bytes", e.size());
+        Exact blk(e.data(), e.size());
+        auto q = igris::deserialize<std::pair<long double, int32_t>>(igris::buffer(blk.c(), blk.n));
+        VP_CHECK(same(q.first, p.first) && q.second == p.second, "archive_longdouble_value", "pair decodes to (%.25Lg, %d), want (%.25Lg, %d)", q.first, q.second, p.first, p.second);
+    }
+    else if (form == 2)
+    {
+        c.label("ld_vector");
+        std::string e = igris::serialize(xs) + igris::serialize(tail);
+        VP_CHECK(e.size() == 2 + n * sizeof(long double) + 4, "archive_longdouble_size", "vector of %zu long double + int32 encodes to %zu bytes", n, e.size());
+        Exact blk(e.data(), e.size());
+        igris::archive::binary_buffer_reader rd(blk.c(), blk.n);
+        std::vector<long double> ys;
+        igris::deserialize(rd, ys);
+        int32_t t2 = ~tail;
+        igris::deserialize(rd, t2);
+        bool ok = ys.size() == xs.size();
+        for (size_t i = 0; ok && i < n; i++)
+            ok = same(ys[i], xs[i]);
+        VP_CHECK(ok && t2 == tail && (size_t)(rd.ptr - blk.c()) == e.size(), "archive_longdouble_value", "vector<long double> of %zu + int32: %zu decoded, tail %d (want %d), %td of %zu consumed",
+                 n, ys.size(), t2, tail, rd.ptr - blk.c(), e.size());
+    }
+    else
+    {
+        c.label("ld_tuple");
+        std::tuple<uint8_t, long double, int32_t> t{(uint8_t)n, xs[0], tail};
+        std::string e = igris::serialize(t);
+        VP_CHECK(e.size() == 1 + sizeof(long double) + 4, "archive_longdouble_size", "tuple<u8,long double,int32> encodes to %zu bytes", e.size());
+        Exact blk(e.data(), e.size());
+        auto q = igris::deserialize<std::tuple<uint8_t, long double, int32_t>>(igris::buffer(blk.c(), blk.n));
+        VP_CHECK(std::get<0>(q) == (uint8_t)n && same(std::get<1>(q), xs[0]) && std::get<2>(q) == tail, "archive_longdouble_value", "tuple decodes to (%u, %.25Lg, %d)",
+                 std::get<0>(q), std::get<1>(q), std::get<2>(q));
+    }
+}
+VP_TARGET("archive_longdouble", archive_longdouble_target,
+          "long double through archive.h (its own dump/load overloads): sequences, pair, vector and tuple with an int32 behind — encoded size = sizeof(long double) per "
+          "value, values round-trip (the 10 significant bytes), the value that follows decodes correctly and every byte is consumed");
+
 static void archive_defaults_target(Src &s, Case &c)
 {
     if (s.coin())
